@@ -298,4 +298,6 @@ def replay(payload):
         pr = r.get("probe", {})
         if "worst" in pr and pr["worst"] > 1e-10:
             return False, pr["detail"]
+        if "error" in pr and "PropagatorGenerationException" not in pr["error"]:
+            return False, "accepted by from_function but analysis() gives %s" % pr["error"]
     return True, "outcome %s" % o
